@@ -2,10 +2,12 @@ use crate::driver::Prop;
 
 pub mod c01;
 pub mod c02;
+pub mod c06;
 pub mod c12;
 pub mod c15;
 pub mod c16;
 pub mod c17;
+pub mod c18;
 pub mod c19;
 pub mod world_props;
 
@@ -17,10 +19,12 @@ pub fn all() -> Vec<Box<dyn Prop>> {
         Box::new(world_props::C04),
         Box::new(world_props::C05),
         Box::new(world_props::C14),
+        Box::new(c06::C06),
         Box::new(c12::C12),
         Box::new(c15::C15),
         Box::new(c16::C16),
         Box::new(c17::C17),
+        Box::new(c18::C18),
         Box::new(c19::C19),
         Box::new(world_props::C20),
     ]
